@@ -104,7 +104,7 @@ class Ctx:
         return out
 
     def guard(self, rule, F, gpred, accept, sinks, unconditional=True, gname=None, min_guards=1,
-              which=None):
+              which=None, removed=()):
         """P2: for each call site of gpred in F and each sink, the sink is only reachable in
         worlds where the guard returned `accept` (and, if unconditional, did run).
         `which`: optional filter on guard sites (callable on (bid, term)) or index list."""
@@ -122,7 +122,7 @@ class Ctx:
         allok = True
         for gi, (gb, gt) in enumerate(gsites):
             for (sb, sspan, slabel) in sinks:
-                ok, det = gf.check_sink(gb, accept, sb, unconditional)
+                ok, det = gf.check_sink(gb, accept, sb, unconditional, removed)
                 tag = '' if len(gsites) == 1 else '#%d' % gi
                 allok &= self.ob(rule, F.name, 'guard %s%s=%s before %s' % (gname, tag, accept, slabel), ok,
                                  at=gt.span, sink_at=atxt(sspan), unconditional=unconditional, **det)
